@@ -26,12 +26,12 @@ def R(name, q, args=(0, 0, 0, 0), tid=1, ts=1, data=None):
 ALPHA = [
     ('getpid@1', lambda ts: [R('BSC_getpid', 1, tid=1, ts=ts), R('BSC_getpid', 2, (0, 5, 0, 0), tid=1, ts=ts + 1)]),
     ('getpid@3', lambda ts: [R('BSC_getpid', 1, tid=3, ts=ts), R('BSC_getpid', 2, (0, 5, 0, 0), tid=3, ts=ts + 1)]),
-    ('newthread-data 3->77 by 1', lambda ts: [R('TRACE_DATA_NEWTHREAD', 0, (3, 77, 0, 0), tid=1, ts=ts)]),
+    ('newthread-data 3->10 by 1', lambda ts: [R('TRACE_DATA_NEWTHREAD', 0, (3, 10, 0, 0), tid=1, ts=ts)]),
     ('newthread-string by 1', lambda ts: [R('TRACE_STRING_NEWTHREAD', 0, tid=1, ts=ts, data=b'childproc'.ljust(32, b'\0'))]),
     ('terminate-pid@3 -> 88', lambda ts: [R('TRACE_DATA_THREAD_TERMINATE_PID', 0, (88, 1, 0, 0), tid=3, ts=ts)]),
     ('thd-data tid3 pid99 by 2', lambda ts: [R('PERF_THD_Data', 0, (99, 3, 0, 0), tid=2, ts=ts)]),
     ('wait@2', lambda ts: [R('MACH_WAIT', 0, (0x10, 0, 0, 0), tid=2, ts=ts)]),
-    ('exec-data pid 55 by 3', lambda ts: [R('TRACE_DATA_EXEC', 0, (55, 0, 0, 0), tid=3, ts=ts)]),
+    ('exec-data pid 20 by 3', lambda ts: [R('TRACE_DATA_EXEC', 0, (20, 0, 0, 0), tid=3, ts=ts)]),
     ('exec-string by 3', lambda ts: [R('TRACE_STRING_EXEC', 0, tid=3, ts=ts, data=b'execd'.ljust(32, b'\0'))]),
 ]
 MAPS = [[], [(1, 10, 'A')], [(1, 10, 'A'), (2, 20, 'B')], [(1, 2, 'A'), (2, 1, 'B'), (3, 3, 'C')]]   # last: tids collide with pids
@@ -122,8 +122,8 @@ def model(m, seq):
             out.append((t, [(dict(tp), dict(pn))]))
         elif nm.startswith('newthread-data'):
             old = (dict(tp), dict(pn))
-            tp[3] = 77
-            last_new[1] = 77
+            tp[3] = 10
+            last_new[1] = 10
             out.append((1, [old, (dict(tp), dict(pn))]))
         elif nm.startswith('newthread-string'):
             old = (dict(tp), dict(pn))
@@ -141,7 +141,7 @@ def model(m, seq):
         elif nm.startswith('wait'):
             out.append((2, [(dict(tp), dict(pn))]))
         elif nm.startswith('exec-data'):
-            last_exec[3] = 55
+            last_exec[3] = 20
             out.append((3, [(dict(tp), dict(pn))]))
         elif nm.startswith('exec-string'):
             old = (dict(tp), dict(pn))
@@ -180,6 +180,28 @@ def judge_process(m, seq):
     for g, tid in zip(ev_lines, tids):
         if g.rstrip() != fmt_proc(tid, tp, pn) or g != f'{fmt_proc(tid, tp, pn):<27}':
             return ('event-listing-process-column', {'line': g, 'expected': fmt_proc(tid, tp, pn)})
+    return None
+
+
+def judge_sequence(m1, seq1, m2, seq2):
+    """one PyKdebugParser object formats dump 1 and then dump 2: the lines of dump 2 must be those a fresh object gives (every line
+    names the process THE DUMP declares - nothing carried over from the earlier dump)."""
+    blob1, blob2 = dump(m1, seq1), dump(m2, seq2)
+    cfg = [True, False, False, True, True, False]
+    for api in ('formatted_traces', 'formatted_kevents'):
+        p = PyKdebugParser()
+        p.color = False
+        for k, v in zip(SW, cfg):
+            setattr(p, k, v)
+        try:
+            list(getattr(p, api)(io.BytesIO(blob1), tcodes()))
+            got = list(getattr(p, api)(io.BytesIO(blob2), tcodes()))
+        except Exception as ex:
+            return ('formatting-raised:' + type(ex).__name__, {'api': api, 'error': repr(ex)[:200]})
+        exp = lines(blob2, api, cfg, False)
+        if got != exp:
+            d = next((i for i, (a, b) in enumerate(zip(got, exp)) if a != b), min(len(got), len(exp)))
+            return ('lines-depend-on-dump-formatted-earlier:' + api, {'line': got[d] if d < len(got) else None, 'fresh': exp[d] if d < len(exp) else None})
     return None
 
 
@@ -224,7 +246,9 @@ class C14(Check):
     rule = ('all 2^6 column-switch settings x colour {off,on} x all record streams of <=2 (quick) / <=3 (thorough) items over 9 kinds '
             '(syscalls on a declared and an undeclared thread, NEWTHREAD data/string, EXEC data/string, terminate-pid, sampler '
             'thread-data, unrelated record) x thread maps {empty, 1 entry, 2 entries, 3 entries whose tids collide with other entries\' pids}, through formatted_kevents and '
-            'formatted_traces (+ one callstack dump through formatted_callstacks, one v3 log dump through formatted_logs). '
+            'formatted_traces (+ one callstack dump through formatted_callstacks, one v3 log dump through formatted_logs); plus dump '
+            'SEQUENCES: one parser object formats a first dump (1 item quick / <=2 thorough, any map) and then a second (<=2 items, '
+            'any map) - the second dump\'s lines must equal a fresh object\'s. '
             'Oracle: line(config) == concatenation in fixed order of the single-column renderings; ANSI-stripped coloured line == '
             'plain line; process column == reference table evolution (thread map, then updates in stream order) rendered '
             'name(pid), or "Error: tid N" for a never-declared thread. states = distinct (switch setting, colour); transitions = '
@@ -242,6 +266,7 @@ class C14(Check):
         out = [('compose', m, ch) for m in range(len(MAPS)) for ch in chunked(streams, 30 if L == 2 else 120)]
         out += [('process', m, ch) for m in range(len(MAPS)) for ch in chunked(list(seqs(range(len(ALPHA)), L + 1)), 4)]
         out.append(('special',))
+        out += [('sequence', m1, i) for m1 in range(len(MAPS)) for i in range(len(ALPHA))]
         return out
 
     def run_shard(self, desc, acc):
@@ -267,6 +292,18 @@ class C14(Check):
                     acc.violation(bad[0], {'kind': 'process', 'map': m, 'seq': list(seq), 'readable': [ALPHA[i][0] for i in seq]}, bad[1])
                 elif acc.want_sample() and len(seq) == 3 and 4 in seq:
                     acc.sample({'thread_map': MAPS[m], 'stream': [ALPHA[i][0] for i in seq]})
+        elif desc[0] == 'sequence':
+            _, m1, first = desc
+            L = 1 if self.tier == 'quick' else 2
+            seq1s = [(first,) + r for r in seqs(range(len(ALPHA)), L - 1 if L > 1 else 0)] if L > 1 else [(first,)]
+            for seq1 in seq1s:
+                for m2 in range(len(MAPS)):
+                    for seq2 in seqs(range(len(ALPHA)), 2, 1):
+                        bad = judge_sequence(m1, seq1, m2, seq2)
+                        acc.case(nontrivial=True, transitions=4, outcome=h64((m1, seq1, m2, seq2)) if len(seq2) == 1 else None)
+                        if bad:
+                            acc.violation(bad[0], {'kind': 'sequence', 'm1': m1, 'seq1': list(seq1), 'm2': m2, 'seq2': list(seq2),
+                                                   'readable': [[ALPHA[i][0] for i in seq1], [ALPHA[i][0] for i in seq2]]}, bad[1])
         else:
             bad, n = judge_compose(callstack_dump(), 'formatted_callstacks')
             acc.case(nontrivial=True, transitions=n)
@@ -283,6 +320,8 @@ class C14(Check):
             bad, _ = judge_compose(dump(case['map'], tuple(case['seq'])), case['api'])
         elif k == 'process':
             bad = judge_process(case['map'], tuple(case['seq']))
+        elif k == 'sequence':
+            bad = judge_sequence(case['m1'], tuple(case['seq1']), case['m2'], tuple(case['seq2']))
         elif k == 'callstacks':
             bad, _ = judge_compose(callstack_dump(), 'formatted_callstacks')
         else:
